@@ -3,7 +3,7 @@
    sequences.  It never looks at handles, buffers or capacities: it is the
    oracle the representation is checked against (C01, C07, C18).
    txt[h] is the text of slot h, or DeadT for a dead slot.                  *)
-EXTENDS Integers, Sequences, Utf8
+EXTENDS Integers, Sequences, Utf8, Codec
 
 DeadT == <<-1>>
 
@@ -68,6 +68,9 @@ Abs(txt, op, statics) ==
          IF op.m = 0 THEN A(Set(txt, op.h, Concat(op.x)), "ok", <<>>, "")
          ELSE A(txt, "panic", <<>>, "callback")
     [] op.op = "compare" -> A(txt, "ok", CmpVal(txt[op.h], txt[op.g]), "")
+    [] op.op = "from_utf8_lossy" -> A(Set(txt, op.h, Lossy8(op.s)), "ok", <<>>, "")
+    [] op.op = "from_utf16" -> LET d == Dec16(op.x) IN IF d.ok THEN A(Set(txt, op.h, d.text), "ok", <<>>, "") ELSE A(txt, "err", <<>>, "utf16")
+    [] op.op = "from_utf16_lossy" -> A(Set(txt, op.h, Dec16(op.x).lossy), "ok", <<>>, "")
     [] op.op = "display" ->      \* to_string() of the same value (an erroring Display: no string)
          IF op.m > 0 /\ (op.n = 0 \/ op.m < op.n) THEN A(txt, "panic", <<>>, "callback")
          ELSE IF op.n > 0 THEN A(txt, (IF op.t = 1 THEN "err" ELSE "panic"), <<>>, "fmt")
